@@ -43,7 +43,8 @@ def gen_big_case(rng):
     """ thorough: one very long line around the 1 MiB limit, probed at a few offsets """
     consts = K.live_constants()
     limit = consts['H'] * consts['EXP']
-    ln = limit + rng.choice([-513, -257, -256, -255, -1, 0, 1, 255, 256, 257])
+    # (the zone limit-256 < ln < limit is where the forward scan needs its LAST window)
+    ln = limit + rng.choice([-513, -257, -256, -255, -200, -128, -2, -1, 0, 1, 255, 256, 257])
     pre = rng.choice([b'', b'ab\n', b'2023-01-01 00:00:00 x\n'])
     post = rng.choice([b'', b'\n', b'\nend\n'])
     content = pre + b'x' * ln + post
@@ -77,7 +78,9 @@ def eval_cases(rng, count, extra):
         offs = case.get('offsets')
         impl = {'tfl': K.impl_tfl_all(content, case['cons'], offs,
                                       order_seed=case.get('order_seed')),
-                'apply': K.impl_apply(content, case['cons'])}
+                'apply': K.impl_apply(content, case['cons']),
+                # the non-destructive form (returns the offset, leaves the position alone)
+                'apply_nd': K.impl_apply(content, case['cons'], destructive=False)}
         ops = ([['tfl', o] for o in offs] if offs is not None else [['tfl_all']])
         ops.append(['apply'])
         out.append({'case': case, 'impl': impl, 'consts': consts,
@@ -153,6 +156,15 @@ def judge(rep, item, mobs):
                  f"apply_to_file left the file at {p}: not 0, not EOF, not after a line feed",
                  impl=ia)
         return
+    nd = impl.get('apply_nd')
+    if nd is not None:
+        q = nd.get('pos')
+        if 'err' in nd or not (q == 0 or q == len(content) or
+                               (0 < q <= len(content) and content[q - 1:q] == b'\n')):
+            rep.fail('failing-input', case,
+                     f"apply_to_file(fd, destructive=False) {nd}: the file is left neither at 0, "
+                     "nor at EOF, nor after a line feed", impl=nd)
+            return
     if ma.get('pos') != p:
         rep.fail('correspondence-broken', case, f"apply_to_file: impl={ia} model={ma}",
                  impl=ia, model=ma)
@@ -170,8 +182,8 @@ def run(tier, seed, replay_case=None):
     if replay_case is None:
         items += core.run_sharded(eval_cases, seed, total, {'tier': tier})
         # lines around the 1 MiB limit (MaxSearchableLineLengthReached paths): 48 in thorough,
-        # 3 in quick
-        items += core.run_sharded(eval_cases, seed + 1, 48 if tier == 'thorough' else 3,
+        # 6 in quick
+        items += core.run_sharded(eval_cases, seed + 1, 48 if tier == 'thorough' else 6,
                                   {'tier': tier, 'big': True})
     drv = core.Driver()
     mobs = drv.run([it['model_case'] for it in items])
